@@ -74,12 +74,13 @@ def run_case(cls, key, seed, ctx):
         h = {"hard": rng.integers(0, 2, size=ds.n).astype(float), "soft": rng.random(ds.n),
              "extreme": np.where(rng.random(ds.n) < 0.5, 0.0, 1.0) * (rng.random() < 0.5)}[style]
         pcont = gen.pick(rng, ["ndarray", "series", "col", "series_hostile"])
-        got = moment.gamma(ML.FixedPredictor(h, pcont, gen.pick(rng, ["reversed", "rolled", "offset"])))
+        pdt = None if style == "soft" else gen.pick(rng, ML.HARD_DTYPES)
+        got = moment.gamma(ML.FixedPredictor(h, pcont, gen.pick(rng, ["reversed", "rolled", "offset"]), out_dtype=pdt))
         ref = RM.gamma(kind, ds.y, ds.g, h, ratio, ds.c)
         for ent, k in mapping.items():
             ctx.ev("gamma_entries_compared")
             ctx.check(close(got[ent], ref[k], 1e-10, 1e-12), "gamma_entry_differs_from_definition", entry=repr(ent), defined_as=repr(k),
-                      got=float(got[ent]), expected=ref[k], prediction=h.tolist(), prediction_container=pcont, label_dtype=str(getattr(y, "dtype", type(y).__name__)), wit=wit)
+                      got=float(got[ent]), expected=ref[k], prediction=h.tolist(), prediction_container=pcont, prediction_dtype=pdt, label_dtype=str(getattr(y, "dtype", type(y).__name__)), wit=wit)
     # a predictor may return its own stored float64 score array, the same object on every call: gamma must not depend on
     # how often it was asked, nor write into the caller's array
     hs = rng.random(ds.n)
@@ -140,11 +141,12 @@ def run_loss(ctx, rng):
         ctx.mark([which, repr(costs), ds.n], True, sample={**wit, "costs": costs})
         for style in ("hard", "soft"):
             h = rng.integers(0, 2, size=ds.n).astype(float) if style == "hard" else rng.random(ds.n)
-            got = m.gamma(ML.FixedPredictor(h, gen.pick(rng, ["ndarray", "series", "col", "series_hostile"]), gen.pick(rng, ["reversed", "rolled"])))
+            pdt = gen.pick(rng, ML.HARD_DTYPES) if style == "hard" else None
+            got = m.gamma(ML.FixedPredictor(h, gen.pick(rng, ["ndarray", "series", "col", "series_hostile"]), gen.pick(rng, ["reversed", "rolled"]), out_dtype=pdt))
             ctx.ev("loss_gamma_compared")
             ctx.check(len(got) == 1 and close(got.iloc[0], RM.error_rate(ds.y, h, fp, fn), 1e-10, 1e-12),
                       "error_rate_gamma_differs_from_cost_weighted_error", costs=costs, got=repr(got), expected=RM.error_rate(ds.y, h, fp, fn),
-                      prediction=h.tolist(), wit=wit)
+                      prediction=h.tolist(), prediction_dtype=pdt, label_dtype=str(getattr(y, "dtype", type(y).__name__)), wit=wit)
         return
     lo, hi = gen.pick(rng, [(0.0, 1.0), (-1.0, 2.0), (0.2, 0.6), (0.0, 5.0)])
     if which == "bgl_zero_one":
@@ -158,18 +160,25 @@ def run_loss(ctx, rng):
     m = red.BoundedGroupLoss(loss, upper_bound=ub)
     X = ds.X if rng.random() < 0.5 else pd.DataFrame(ds.X)
     yk = gen.as_vec(yv, gen.pick(rng, ["list", "ndarray", "series"]), rng)
+    if which == "bgl_zero_one" and isinstance(yk, np.ndarray):
+        yk = yk.astype(gen.pick(rng, [np.int64, np.uint8, bool, np.int8, np.float32]))  # 0/1 labels in the caller's dtype
     gk = gen.as_vec(ds.g, gen.pick(rng, ["list", "ndarray", "series"]), rng)
     m.load_data(X, yk, sensitive_features=gk)
     ctx.mark([which, lo, hi, ds.n, len(set(ds.g))], True, sample={**wit, "y_values": yv, "clip": [lo, hi]})
-    for _ in range(2):
+    for rnd in range(2):
         h = np.round(rng.uniform(lo - 0.7, hi + 0.7, size=ds.n), 3)
-        got = m.gamma(ML.FixedPredictor(h, gen.pick(rng, ["ndarray", "series_hostile"]), gen.pick(rng, ["reversed", "rolled"])))
+        pdt = None
+        if which == "bgl_zero_one" and rnd == 1:
+            h = rng.integers(0, 2, size=ds.n).astype(float)  # a classifier's hard predictions, in the dtype of its labels
+            pdt = gen.pick(rng, ML.HARD_DTYPES)
+        got = m.gamma(ML.FixedPredictor(h, gen.pick(rng, ["ndarray", "series_hostile"]), gen.pick(rng, ["reversed", "rolled"]), out_dtype=pdt))
         ref = RM.group_loss(lname, yv, ds.g, h, lo, hi)
         ctx.check(set(map(repr, got.index)) == set(map(repr, ref.keys())), "group_loss_index_is_not_the_set_of_groups", got=list(map(repr, got.index)), wit=wit)
         for a, v in ref.items():
             ctx.ev("loss_gamma_compared")
             ctx.check(a in got.index and close(got[a], v, 1e-10, 1e-12), "group_loss_gamma_differs_from_mean_clipped_loss", group=repr(a),
-                      got=repr(got.get(a)), expected=v, prediction=h.tolist(), y_values=yv, clip=[lo, hi], wit=wit)
+                      got=repr(got.get(a)), expected=v, prediction=h.tolist(), prediction_dtype=pdt, label_dtype=str(getattr(yk, "dtype", type(yk).__name__)),
+                      y_values=yv, clip=[lo, hi], wit=wit)
     b = m.bound()
     ctx.ev("bound_entries_compared")
     ctx.check(all(close(v, ub, 0, 1e-15) for v in b) and len(b) == len(ref), "bound_is_not_the_configured_slack", got=repr(b), expected=ub)
